@@ -53,6 +53,12 @@ Qed.
 
 Lemma upd_same_length_nil i v : upd (@nil A) i v = [].
 Proof. destruct i; reflexivity. Qed.
+Lemma upd_same l i d : upd l i (nth i l d) = l.
+Proof. revert i; induction l as [|x r IH]; intros [|i]; simpl; auto. f_equal. apply IH. Qed.
+
 Lemma nth_repeat_lt (x d : A) n i : i < n -> nth i (repeat x n) d = x.
 Proof. revert i; induction n as [|n IH]; intros [|i] H; simpl; try lia; auto. apply IH; lia. Qed.
 End Arr.
+
+Lemma map_upd {A B} (f : A -> B) l i v : map f (upd l i v) = upd (map f l) i (f v).
+Proof. revert i; induction l as [|x r IH]; intros [|i]; simpl; auto. f_equal. apply IH. Qed.
